@@ -13,7 +13,7 @@ EXPLANATION = (
     'delta header carries source_data.len(), signature.file_size and the BLAKE3 of the whole source, and that object is returned; (R4) only the two delta functions '
     'emit ops; the single-file command and the CLI chain call these engines; the three signature producers hash zero-based sequential chunks of block_size; (R5) '
     'push_copy merges only contiguous copies with a checked length; (R6) both engines satisfy the same rule vector; (R7) the CLI writes and reads back the same '
-    'types. (R8) sync_files publishes either a whole write of the patched output or, when the destination is assembled from a copy of the old file plus partial writes, a file that passed set_len on every path to the rename except under an edge that has just found the two lengths equal (that the assembled bytes equal the output is NO-VERDICT). patch reproduce-or-reject is C05. Not decided: equality of the reconstructed bytes; that every copy lies inside the basis (needs the value fact that only '
+    'types. (R9) in both patch engines the bytes written for a copy op are read_exact into a buffer of the length of the op after seek(Start(op.offset)), in the engine or in the helper that does the read; a helper that elides the seek by a remembered position must set that position from the seek target; (R8) sync_files publishes either a whole write of the patched output or, when the destination is assembled from a copy of the old file plus partial writes, a file that passed set_len on every path to the rename except under an edge that has just found the two lengths equal (that the assembled bytes equal the output is NO-VERDICT). patch reproduce-or-reject is C05. Not decided: equality of the reconstructed bytes; that every copy lies inside the basis (needs the value fact that only '
     'full blocks match).')
 ASSUMPTIONS = ['BLAKE3 collision freeness', 'bincode/serde round-trip of Signature and Delta']
 
@@ -26,6 +26,7 @@ def run(ctx):
     ctx.rule('C01.R5', 'push_copy merges only contiguous copies with checked length', floor=1)
     ctx.rule('C01.R6', 'sibling agreement: sync and async engines have the same verdict vector', floor=1)
     ctx.rule('C01.R7', 'CLI file chain: bincode serialize/deserialize agree on Signature / Delta', floor=2)
+    ctx.rule('C01.R9', 'patch, copy arm: the bytes written for Copy{offset, len} are read_exact into a buffer of that length after seek(Start(offset)) - in the engine or in the helper that reads', floor=2)
     ctx.rule('C01.R8', 'single-file sync: every file sync_files creates holds exactly the source bytes it read or the whole buffer patch() produced', floor=2)
     for cfgname, F in ctx.F.items():
         conf = confirming_lookups(F)
@@ -48,10 +49,23 @@ def run(ctx):
                       'the sync and async delta engines disagree on %s' % diff, None)
         r4(ctx, F, cfgname)
         r5(ctx, F)
+        ctx.attempt(r9, ctx, F, cfgname)
         if 'bin' in F.crates:
             r7(ctx, F)
         if F.nested('async_sync::AsyncCopiaSync::sync_files'):
             r8(ctx, F, cfgname)
+
+
+def r9(ctx, F, cfgname):
+    from rules import C05
+    for fn, tag in C05.ENGINES:
+        if not F.nested(fn):
+            continue
+        b = work_body(F, fn, C05.WRITE)
+        if b is None:
+            ctx.missing('C01.R9', fn + ' (no write_all call found)')
+        fl = flow_of(b)
+        C05._r4(ctx, F, b, fl, fn, '%s:%s' % (tag, cfgname), fl.calls(lambda c: c in C05.WRITE), 'C01.R9')
 
 
 class _Rec:
